@@ -133,6 +133,27 @@ pub fn policy_of(suite: &str) -> Option<seqx::Policy> {
     })
 }
 
+/// A task that spawns a child and aborts its own command in the same poll, alone and with other tasks
+/// still queued behind it in the pass (the child is in the spawn queue when the abort is noticed).
+pub fn spawn_then_self_abort_programs() -> Vec<P> {
+    let x = || P::SpawnThenSelfAbort(s0(), s0());
+    let progs = vec![
+        x(),
+        P::and(x(), P::Req(s0())),
+        P::and(x(), P::Stream(s0())),
+        P::and(P::and(x(), P::Req(s0())), P::Req(s0())),
+        P::and(x(), P::Burst(s0(), s0())),
+        P::and(P::Req(s0()), x()),
+        P::All(vec![x(), P::Req(s0())]),
+        P::then(x(), P::Req(s0())),
+        P::then(P::and(x(), P::Req(s0())), P::Notify(s0())),
+        P::MapEvent(Box::new(P::and(x(), P::Req(s0())))),
+        P::All(vec![P::and(x(), P::Req(s0())), P::Stream(s0())]),
+        P::JoinHosted(s0(), Box::new(P::and(x(), P::Req(s0())))),
+    ];
+    progs.into_iter().map(P::normalized).collect()
+}
+
 /// A task that drives a nested command by hand (public `Stream` impl) while also awaiting a request
 /// of its own: the hosting task has a wake source besides the command it hosts. Command-level hosts.
 pub fn join_hosted_programs(thorough: bool) -> Vec<P> {
@@ -447,6 +468,10 @@ fn suites_tree(id: &str, tier: Tier) -> Vec<Suite> {
             progs.dedup();
             let mut v = vec![];
             v.push(Suite { name: "aborts+drops", host: HostKind::Direct, programs: progs.clone(), bounds: bounds(tier.pick(6, 8), tier.pick(1, 2), 1, tier.pick(1, 2), 2) });
+            for host in [HostKind::Direct, HostKind::StreamPoll, HostKind::CoreCmd] {
+                let silent = if host.is_core() { 0 } else { 2 };
+                v.push(Suite { name: "spawn-then-self-abort", host, programs: spawn_then_self_abort_programs().into_iter().filter(|p| !host.is_core() || !p.contains(&|q| matches!(q, P::JoinHosted(..)))).collect(), bounds: bounds(tier.pick(7, 9), 0, silent, 1, 2) });
+            }
             // the lazily polled hosts: in the quick tier the 3-node terms over a reduced atom set (all
             // 2-node terms and all sibling-containment programs stay)
             let lazy_progs: Vec<P> = if q {
@@ -474,6 +499,8 @@ fn suites_tree(id: &str, tier: Tier) -> Vec<Suite> {
             vec![
                 Suite { name: "done-iff-nothing-left", host: HostKind::Direct, programs: progs, bounds: bounds(tier.pick(6, 9), 0, tier.pick(1, 2), 1, 2) },
                 Suite { name: "done-iff-nothing-left/aborts", host: HostKind::Direct, programs: with_abort(2), bounds: bounds(tier.pick(7, 9), 1, 1, 1, 2) },
+                Suite { name: "done-iff-nothing-left/spawn-then-self-abort", host: HostKind::Direct, programs: spawn_then_self_abort_programs(), bounds: bounds(tier.pick(7, 9), 0, 2, 1, 2) },
+                Suite { name: "done-iff-nothing-left/spawn-then-self-abort", host: HostKind::StreamPoll, programs: spawn_then_self_abort_programs(), bounds: bounds(tier.pick(7, 9), 0, 2, 1, 2) },
                 Suite { name: "done-iff-nothing-left/hand-driven-nested-command", host: HostKind::Direct, programs: join_hosted_programs(tier == Tier::Thorough), bounds: bounds(tier.pick(6, 8), 1, 1, 1, 2) },
                 Suite { name: "done-iff-nothing-left/hand-driven-nested-command", host: HostKind::StreamPoll, programs: join_hosted_programs(tier == Tier::Thorough), bounds: bounds(tier.pick(6, 8), 1, 1, 1, 2) },
             ]
